@@ -21,15 +21,16 @@ type ValKey struct {
 
 // Chain is a set of nodes that follow the same chain, plus every key needed to certify its blocks.
 type Chain struct {
-	ChainID uint64
-	Nodes   []*Node
-	Keys    map[string]crypto.PrivateKeyI // BLS public key hex -> private key (every validator that may ever join the committee)
-	Records []*BlockRecord                // committed heights in order
-	Time    uint64
-	last    *Node // the node driven last (see enter)
-	gen     *fsm.GenesisState
-	tweak   func(c *lib.Config)
-	valKeys []crypto.PrivateKeyI
+	EnvelopeChainID uint64 // if non-zero: the chain id Deliver writes into the block-message envelope
+	ChainID         uint64
+	Nodes           []*Node
+	Keys            map[string]crypto.PrivateKeyI // BLS public key hex -> private key (every validator that may ever join the committee)
+	Records         []*BlockRecord                // committed heights in order
+	Time            uint64
+	last            *Node // the node driven last (see enter)
+	gen             *fsm.GenesisState
+	tweak           func(c *lib.Config)
+	valKeys         []crypto.PrivateKeyI
 	// NodeOpts may adjust the options of node i before it is built (file system, memtable size)
 	NodeOpts func(i int, o *Options)
 	// OnNode is applied to every node the chain builds or re-opens (ex. put it in the common governance-vote mode)
@@ -316,7 +317,11 @@ func (ch *Chain) Deliver(i int, qc *lib.QuorumCertificate, cached *lib.BlockResu
 	defer n.C.Unlock()
 	n.C.Consensus.BlockResult = cached
 	ch.Time += 1_000_000
-	_, err := n.C.HandlePeerBlock(&lib.BlockMessage{ChainId: ch.ChainID, BlockAndCertificate: cloneQC(qc), Time: ch.Time}, syncing)
+	env := ch.ChainID
+	if ch.EnvelopeChainID != 0 {
+		env = ch.EnvelopeChainID // a sender may write any chain id into the (unsigned) envelope of a block message
+	}
+	_, err := n.C.HandlePeerBlock(&lib.BlockMessage{ChainId: env, BlockAndCertificate: cloneQC(qc), Time: ch.Time}, syncing)
 	n.C.Consensus.BlockResult = nil
 	if err == nil {
 		// the subscription to the (own) root chain delivers the new info
